@@ -33,7 +33,7 @@ def bounds(tier):
 
 
 def goals(tier):
-    return ["spelling-in-another-container", "spelling-of-rotated-plasmids", "per-letter-palindromic-junction", "mixed-case-between-records", "region-lowered", "region-raised", "per-letter-overhang", "error-MissingModule", "error-DuplicateModules",
+    return ["records-respelled-in-place-between-two-assemblies", "spelling-in-another-container", "spelling-of-rotated-plasmids", "per-letter-palindromic-junction", "mixed-case-between-records", "region-lowered", "region-raised", "per-letter-overhang", "error-MissingModule", "error-DuplicateModules",
             "error-InvalidSequence", "typing-accepts", "typing-rejects", "alternating", "per-letter-equal-vector-overhangs", "ambiguity-code-N-in-either-case"]
 
 
@@ -85,9 +85,18 @@ def outcome_key(o):
     return (o.kind, o.exc_name)
 
 
-def run_strings(enz, strings, ids=None, containers=None):
+def run_strings(enz, strings, ids=None, containers=None, respell_in_place=False):
     M, V = gen.generic_classes(enz)
     conts = containers or ["seq"] * len(strings)
+    if respell_in_place:
+        # the entities are created (and used once) on the upper-case spelling; the records are then re-spelled IN PLACE and the
+        # same entities assemble again
+        v = V(gen.contained(strings[0].upper(), conts[0], "vec"))
+        ms = [M(gen.contained(x.upper(), conts[i + 1], "mod%d" % i)) for i, x in enumerate(strings[1:])]
+        asm.run_assemble(v, ms)
+        for e_, s_ in zip([v] + ms, strings):
+            e_.record.seq = Seq(s_)
+        return asm.run_assemble(v, ms)
     v = V(gen.contained(strings[0], conts[0], "vec"))
     ms = [M(gen.contained(x, conts[i + 1], "mod%d" % i)) for i, x in enumerate(strings[1:])]
     return asm.run_assemble(v, ms)
@@ -98,7 +107,7 @@ def compare(st, sub, enz, upper_strings, cased_strings, scn, ref_cache):
     if key not in ref_cache:
         ref_cache[key] = outcome_key(run_strings(enz, list(upper_strings)))
     ref = ref_cache[key]
-    got = outcome_key(run_strings(enz, cased_strings, containers=scn.get("containers")))
+    got = outcome_key(run_strings(enz, cased_strings, containers=scn.get("containers"), respell_in_place=scn.get("respell_in_place", False)))
     st.scenario(ref[0] if ref[0] != "error" else "error:" + ref[1], None)
     if any(s != s.upper() for s in cased_strings):
         st.nontrivial += 1
@@ -193,6 +202,8 @@ def run_unit(unit, st, tier):
         for combo in itertools.product(["U", "L", "A0", "A1"], repeat=k + 1):
             cased = [transform(s, t) for s, t in zip(up, combo)]
             compare(st, "assembly", enz, up, cased, dict(family="assembly", enz=enz, k=k, case=list(combo)), cache)
+            compare(st, "assembly", enz, up, cased, dict(family="assembly", enz=enz, k=k, case=list(combo), respell_in_place=True), cache)
+            st.goal("records-respelled-in-place-between-two-assemblies")
             # the same spellings in records of the other containers (MutableSeq; fully annotated), all of them or the vector only
             for conts in (["mutable"] * (k + 1), ["annotated"] * (k + 1), ["mutable"] + ["seq"] * k, ["seq"] + ["mutable"] * k):
                 compare(st, "assembly", enz, up, cased, dict(family="assembly", enz=enz, k=k, case=list(combo), containers=conts), cache)
